@@ -56,6 +56,24 @@ pub struct Menu {
     /// timed mode: offer `Tick` (time jumps to the next timer deadline) up to this many times
     #[serde(default)]
     pub max_ticks: usize,
+    /// offer "the next apply on the leader fails" once
+    #[serde(default)]
+    pub fatal_sm: bool,
+    /// what the explorer appends at the end of every path (see cluster_ext::closure)
+    #[serde(default)]
+    pub closure: Closure,
+}
+
+#[derive(Clone, Copy, Debug, Default, PartialEq, Eq, Serialize, Deserialize)]
+pub enum Closure {
+    #[default]
+    None,
+    /// C30: nothing is delivered any more, only time passes (at most this many ticks): every
+    /// accepted request must have been answered by its deadline
+    TimeOnly(usize),
+    /// C32: faults stop - every down node restarts, everything is delivered FIFO, time passes,
+    /// then one write; bounded number of steps
+    Recover(usize),
 }
 
 impl Default for Menu {
@@ -89,6 +107,8 @@ impl Default for Menu {
             max_snapshots: 0,
             joins: false,
             max_ticks: 0,
+            fatal_sm: false,
+            closure: Closure::None,
         }
     }
 }
@@ -250,6 +270,14 @@ impl Menu {
         if nadv < self.max_advances {
             for a in &self.advances {
                 push(&mut out, Event::Advance(*a), 0);
+            }
+        }
+
+        if self.fatal_sm && count(c, hist, |e| matches!(e, Event::FailApply(_))) == 0 {
+            for id in &up {
+                if c.last_views.get(id).map(|v| v.role == RoleKind::Leader).unwrap_or(false) {
+                    push(&mut out, Event::FailApply(*id), 1);
+                }
             }
         }
 
